@@ -424,6 +424,21 @@ def r4_r5_r7_load(ctx, R4="C02.R4", R5="C02.R5", R7="C02.R7") -> None:
     bodies = {}
     for attr_name, effect in (("nodes", ("_add_node", "add_node")), ("edges", ("add_link",))):
         loops = _loops_over(fn, attr_name)
+        # a loop that walks the list in step with another sequence stops at the shorter one
+        zipped = []
+        for n in ast.walk(fn):
+            if isinstance(n, ast.For):
+                it = n.iter.args[0] if isinstance(n.iter, ast.Call) and u(n.iter.func) == "enumerate" and n.iter.args else n.iter
+                if isinstance(it, ast.Call) and u(it.func) == "zip" and any(u(a) == f"{sname}.{attr_name}" for a in it.args) \
+                        and not any(k.arg == "strict" for k in it.keywords):
+                    others = [a for a in it.args if u(a) != f"{sname}.{attr_name}"]
+                    if not all(u(a) in (f"range(len({sname}.{attr_name}))", "itertools.count()", "count()") for a in others):
+                        zipped.append((n, others))
+        if zipped and not loops:
+            ctx.fail(R4, f"Hugr._from_serial: every element of {attr_name} is loaded", file, zipped[0][0].lineno,
+                     f"the loop walks {sname}.{attr_name} zipped with `{u(zipped[0][1][0])[:80]}`: it stops at the shorter of the two, so the elements of the "
+                     "document beyond it are silently dropped on load", zipped[0][0], found=u(zipped[0][0].iter)[:200])
+            return
         if len(loops) != 1:
             ctx.broken(f"Hugr._from_serial: expected one loop over {sname}.{attr_name}, found {len(loops)}")
         loop = loops[0]
